@@ -675,3 +675,248 @@ Proof.
   - intros f. simpl. tauto.
   - reflexivity.
 Qed.
+
+(* ------------------------------------------------------------------ *)
+(** * Cuts *)
+
+Lemma cut_concat {A} ns : forall l : list A, concat (cut l ns) = l.
+Proof.
+  induction ns as [|n ns IH]; intros l; destruct l as [|x l]; try reflexivity.
+  - simpl. now rewrite app_nil_r.
+  - change (cut (x :: l) (n :: ns)) with (firstn (S (pred n)) (x :: l) :: cut (skipn (S (pred n)) (x :: l)) ns).
+    change (concat (?a :: ?b)) with (a ++ concat b). rewrite IH. apply firstn_skipn.
+Qed.
+
+Lemma cut_In {A} ns (l : list A) c x : In c (cut l ns) -> In x c -> In x l.
+Proof.
+  intros Hc Hx. rewrite <- (cut_concat ns l). apply in_concat. exists c. split; assumption.
+Qed.
+
+Lemma cut_forallb {A} (p : A -> bool) ns : forall l, forallb p l = true -> forallb (forallb p) (cut l ns) = true.
+Proof.
+  intros l H. apply forallb_forall. intros c Hc. apply forallb_forall. intros x Hx.
+  rewrite forallb_forall in H. apply H. eapply cut_In; eassumption.
+Qed.
+
+(* ------------------------------------------------------------------ *)
+(** * G: cutting does not matter; a program fed item by item equals the program run whole *)
+
+Lemma g_items_app fuel c1 : forall g r c2,
+  g_items fuel g r (c1 ++ c2) = (let '(g1, r1) := g_items fuel g r c1 in g_items fuel g1 r1 c2).
+Proof.
+  induction c1 as [|i c1 IH]; intros g r c2; [reflexivity|]. simpl.
+  destruct (g_item fuel g i) as [g1 r1]. apply IH.
+Qed.
+
+Lemma g_items_fst fuel c g r r' : fst (g_items fuel g r c) = fst (g_items fuel g r' c).
+Proof. destruct c as [|i c]; [reflexivity|]. simpl. reflexivity. Qed.
+
+Lemma g_run_nomain fuel : forall cs g r,
+  Forall (fun c => declares_main c = false) cs ->
+  fst (g_run fuel g cs) = fst (g_items fuel g r (concat cs)).
+Proof.
+  induction cs as [|c cs IH]; intros g r H; [reflexivity|].
+  inversion H as [|? ? H1 H2]; subst. simpl. unfold g_eval. rewrite H1.
+  destruct c as [|i c].
+  - simpl. specialize (IH g r H2). destruct (g_run fuel g cs) as [g2 rs]. simpl in *. exact IH.
+  - change ((i :: c) ++ concat cs) with (i :: (c ++ concat cs)). simpl.
+    destruct (g_item fuel g i) as [g1 r1]. rewrite g_items_app.
+    destruct (g_items fuel g1 r1 c) as [g2 r2].
+    specialize (IH g2 r2 H2). destruct (g_run fuel g2 cs) as [g3 rs]. simpl in *. exact IH.
+Qed.
+
+Section Ext.
+  Variables T T' : N -> option (fdef N).
+  Hypothesis Hsub : forall f, T f <> None -> T' f = T f.
+  Hypothesis Hclosed : forall f d, T f = Some d -> closed_names T (fnames_d d).
+
+  Section E.
+    Variables callT callT' : mem -> N -> Z -> mem * Z.
+    Hypothesis Hcall : forall m f v, T f <> None -> callT' m f v = callT m f v.
+
+    Lemma ev_ext e : forall m a, closed_names T (fnames_e e) -> ev callT' m a e = ev callT m a e.
+    Proof.
+      induction e as [z|x| |e1 IH1 e2 IH2|e1 IH1 e2 IH2|e1 IH1 e2 IH2|c e1 IH1|p]; intros m a Hc; simpl in *; try reflexivity.
+      - apply Forall_app in Hc as [H1 H2]. rewrite IH1 by assumption. destruct (ev callT m a e1) as [m1 v1]. now rewrite IH2.
+      - apply Forall_app in Hc as [H1 H2]. rewrite IH1 by assumption. destruct (ev callT m a e1) as [m1 v1]. now rewrite IH2.
+      - apply Forall_app in Hc as [H1 H2]. rewrite IH1 by assumption. destruct (ev callT m a e1) as [m1 v1]. now rewrite IH2.
+      - inversion Hc as [|? ? H0 H1]; subst. rewrite IH1 by assumption. destruct (ev callT m a e1) as [m1 v1]. apply Hcall, H0.
+    Qed.
+
+    Lemma ex_ext s m a : closed_names T (fnames_s s) -> ex callT' m a s = ex callT m a s.
+    Proof. destruct s; intros Hc; simpl in *; try reflexivity; now rewrite ev_ext. Qed.
+
+    Lemma exl_ext l : forall m a r, closed_names T (flat_map fnames_s l) -> exl callT' m a r l = exl callT m a r l.
+    Proof.
+      induction l as [|s l IH]; intros m a r Hc; [reflexivity|]. simpl in *. apply Forall_app in Hc as [H1 H2].
+      rewrite ex_ext by assumption. destruct (ex callT m a s) as [m1 r1]. now apply IH.
+    Qed.
+  End E.
+
+  Lemma call_ext n : forall m f v, T f <> None -> call_n T' n m f v = call_n T n m f v.
+  Proof.
+    induction n as [|n IH]; intros m f v Hf; [reflexivity|]. simpl. rewrite (Hsub f Hf).
+    destruct (T f) as [[body ret]|] eqn:ET; [|congruence].
+    specialize (Hclosed f _ ET). unfold fnames_d in Hclosed. simpl in Hclosed. apply Forall_app in Hclosed as [Hb Hr].
+    rewrite (exl_ext _ _ IH body m v None Hb). destruct (exl (call_n T n) m v None body) as [m1 r1].
+    apply (ev_ext _ _ IH ret m1 v Hr).
+  Qed.
+End Ext.
+
+Definition gclosed (g : gstate) : Prop :=
+  forall f d, alookup (gfuns g) f = Some d -> closed_names (alookup (gfuns g)) (fnames_d d).
+
+Lemma g_items_closed fuel c : forall g known r,
+  gclosed g -> Known known g -> ordered_from known c = true ->
+  gclosed (fst (g_items fuel g r c)) /\ Known (known_after known c) (fst (g_items fuel g r c)).
+Proof.
+  induction c as [|i c IH]; intros g known r Hg Hk Ho; [split; assumption|].
+  apply ordered_cons in Ho as [Ho1 [Ho2 Ho3]].
+  change (known_after known (i :: c)) with (known_after (known_after known [i]) c).
+  simpl. destruct i as [x e|p|f d|s]; simpl.
+  - destruct (ev (call_n (alookup (gfuns g)) fuel) (gmem g) 0%Z e) as [m1 v]. apply IH; assumption.
+  - apply IH; assumption.
+  - apply IH; [| |exact Ho3].
+    + intros f' d' Hf'. simpl in Hf'.
+      assert (Hmono : forall f'', alookup (gfuns g) f'' <> None -> alookup ((f, d) :: gfuns g) f'' <> None).
+      { intros f'' H. simpl. destruct (N.eqb f f''); [discriminate|exact H]. }
+      destruct (N.eqb_spec f f') as [<-|Hne].
+      * inversion Hf'; subst d'. apply (consistent_mono_closed _ _ _ Hmono).
+        eapply Forall_impl; [|exact Ho1]. intros f'' Hf''. apply Hk, Hf''.
+      * apply (consistent_mono_closed _ _ _ Hmono). apply (Hg f' d' Hf').
+    + intros f'. simpl. destruct (N.eqb_spec f f') as [<-|Hne].
+      * split; [discriminate|intros _; left; reflexivity].
+      * rewrite <- (Hk f'). split; [intros [H|H]; [congruence|exact H]|intros H; right; exact H].
+  - destruct (ex (call_n (alookup (gfuns g)) fuel) (gmem g) 0%Z s) as [m1 r1]. apply IH; assumption.
+Qed.
+
+Lemma stmts_map b : stmts (map IStmt b) = b.
+Proof. induction b as [|s b IH]; [reflexivity|]. unfold stmts in *. simpl. now rewrite IH. Qed.
+
+Lemma all_stmts_map b : forallb (fun i => negb (is_decl i)) (map IStmt b) = true.
+Proof. induction b; [reflexivity|assumption]. Qed.
+
+Lemma declared_funcs c : flat_map declared_f c = map fst (funcs c).
+Proof.
+  induction c as [|i c IH]; [reflexivity|]. unfold funcs. simpl. fold (funcs c). rewrite map_app, <- IH.
+  destruct i; reflexivity.
+Qed.
+
+Lemma exl_fst_r {C} (call : mem -> C -> Z -> mem * Z) l m a r r' : fst (exl call m a r l) = fst (exl call m a r' l).
+Proof. destruct l; reflexivity. Qed.
+
+Lemma prog_ok_parts p : prog_ok p = true ->
+  forallb is_decl (decls p) = true
+  /\ ordered_from [] (decls p) = true
+  /\ ordered_from (known_after [] (decls p)) (map IStmt (body p)) = true
+  /\ ~ In main_name (map fst (funcs (decls p)))
+  /\ ~ In main_name (flat_map fnames_s (body p)).
+Proof.
+  unfold prog_ok, ordered, no_main. intros H. apply andb_true_iff in H as [H H3]. apply andb_true_iff in H as [H1 H2].
+  rewrite ordered_from_app in H2. apply andb_true_iff in H2 as [H2a H2b].
+  apply negb_true_iff in H3.
+  assert (Hn : ~ In main_name (flat_map declared_f (decls p ++ map IStmt (body p)) ++ flat_map fnames_i (decls p ++ map IStmt (body p)))).
+  { intros Hin. apply existsb_eqb_In in Hin. congruence. }
+  repeat split; try assumption.
+  - intros Hin. apply Hn. apply in_app_iff. left. rewrite flat_map_app. apply in_app_iff. left.
+    rewrite declared_funcs. exact Hin.
+  - intros Hin. apply Hn. apply in_app_iff. right. rewrite flat_map_app. apply in_app_iff. right.
+    clear -Hin. induction (body p) as [|s b IH]; [exact Hin|]. simpl in *. apply in_app_iff in Hin. apply in_app_iff. tauto.
+Qed.
+
+Lemma g_whole fuel p : prog_ok p = true ->
+  gmem (fst (g_run fuel g0 [whole p])) = gmem (fst (g_items fuel g0 None (decls p ++ map IStmt (body p)))).
+Proof.
+  intros Hok. destruct (prog_ok_parts p Hok) as [Hd [Ho1 [Ho2 [Hnm Hnb]]]].
+  assert (Hg0 : gclosed g0) by (intros f d H; discriminate).
+  assert (Hk0 : Known [] g0) by (intros f; simpl; tauto).
+  destruct (g_items_closed fuel (decls p) g0 [] None Hg0 Hk0 Ho1) as [Hcl Hk].
+  unfold whole. simpl. unfold g_eval. rewrite !g_items_app.
+  destruct (g_items fuel g0 None (decls p)) as [g1 r1] eqn:E1. simpl in Hcl, Hk. simpl.
+  assert (Hdm : declares_main (decls p ++ [IFunc main_name (body p, EConst 0%Z)]) = true).
+  { unfold declares_main, funcs. rewrite flat_map_app, existsb_app. simpl. apply orb_true_r. }
+  rewrite Hdm. simpl. unfold run_body. simpl.
+  rewrite (g_items_stmts fuel (map IStmt (body p)) g1 r1 (all_stmts_map _)). rewrite stmts_map.
+  set (T1 := alookup (gfuns g1)).
+  set (T' := alookup ((main_name, (body p, EConst 0%Z)) :: gfuns g1)).
+  assert (Hsub : forall f, T1 f <> None -> T' f = T1 f).
+  { intros f Hf. unfold T'. cbn [alookup]. destruct (N.eqb_spec main_name f) as [<-|Hne]; [|reflexivity].
+    exfalso. apply Hnm. apply Hk in Hf. apply In_known_after in Hf as [[]|Hf]. exact Hf. }
+  assert (Hb : closed_names T1 (flat_map fnames_s (body p))).
+  { pose proof (stmts_names (map IStmt (body p)) _ (all_stmts_map _) Ho2) as Hs. rewrite stmts_map in Hs.
+    eapply Forall_impl; [|exact Hs]. intros f Hf. apply Hk, Hf. }
+  match goal with |- _ = ?R => change (fst (exl (call_n T' fuel) (gmem g1) 0%Z None (body p)) = R) end.
+  rewrite (exl_ext T1 _ _ (call_ext T1 T' Hsub Hcl fuel) (body p) (gmem g1) 0%Z None Hb).
+  rewrite (exl_fst_r (call_n T1 fuel) (body p) (gmem g1) 0%Z None r1).
+  fold T1. destruct (exl (call_n T1 fuel) (gmem g1) 0%Z r1 (body p)) as [m2 r2]. reflexivity.
+Qed.
+
+Lemma pieces_concat p c1 c2 : concat (pieces p c1 c2) = decls p ++ map IStmt (body p).
+Proof. unfold pieces. rewrite concat_app, !cut_concat. reflexivity. Qed.
+
+Lemma pieces_nomain p c1 c2 : prog_ok p = true -> Forall (fun c => declares_main c = false) (pieces p c1 c2).
+Proof.
+  intros Hok. destruct (prog_ok_parts p Hok) as [_ [_ [_ [Hnm _]]]].
+  apply Forall_forall. intros c Hc. destruct (declares_main c) eqn:E; [|reflexivity]. exfalso.
+  unfold declares_main in E. apply existsb_exists in E as [[f d] [Hin He]]. simpl in He. apply N.eqb_eq in He. subst f.
+  apply In_funcs in Hin. unfold pieces in Hc. apply in_app_iff in Hc as [Hc|Hc].
+  - apply Hnm. apply in_map_iff. exists (main_name, d). split; [reflexivity|]. apply In_funcs. eapply cut_In; eassumption.
+  - pose proof (cut_In _ _ _ _ Hc Hin) as H. apply in_map_iff in H as [s [Hs _]]. discriminate.
+Qed.
+
+Lemma main_last_nomain cs : Forall (fun c => declares_main c = false) cs -> main_last cs = true.
+Proof.
+  induction cs as [|c cs IH]; intros H; [reflexivity|]. inversion H as [|? ? H1 H2]; subst.
+  destruct cs as [|c2 cs]; [reflexivity|]. change (negb (declares_main c) && main_last (c2 :: cs) = true).
+  rewrite H1. simpl. apply IH, H2.
+Qed.
+
+Lemma pieces_homogeneous p c1 c2 : prog_ok p = true -> forallb homogeneous (pieces p c1 c2) = true.
+Proof.
+  intros Hok. destruct (prog_ok_parts p Hok) as [Hd _]. unfold pieces. rewrite forallb_app. apply andb_true_iff. split.
+  - pose proof (cut_forallb is_decl c1 _ Hd) as H. rewrite forallb_forall in *. intros c Hc. unfold homogeneous.
+    rewrite (H c Hc). reflexivity.
+  - pose proof (cut_forallb (fun i => negb (is_decl i)) c2 _ (all_stmts_map (body p))) as H.
+    rewrite forallb_forall in *. intros c Hc. unfold homogeneous. rewrite (H c Hc). apply orb_true_r.
+Qed.
+
+Lemma inits_indirect_stmts b : inits_indirect (map IStmt b) = true.
+Proof. induction b; [reflexivity|assumption]. Qed.
+
+Lemma whole_ok p : prog_ok p = true -> ordered (whole p) = true /\ forallb is_decl (whole p) = true.
+Proof.
+  intros Hok. destruct (prog_ok_parts p Hok) as [Hd [Ho1 [Ho2 [Hnm Hnb]]]]. unfold whole, ordered. split.
+  - rewrite ordered_from_app, Ho1. cbn [andb]. apply ordered_cons. split; [|split].
+    + simpl. unfold fnames_d. simpl. rewrite app_nil_r.
+      pose proof (stmts_names (map IStmt (body p)) _ (all_stmts_map _) Ho2) as Hs. rewrite stmts_map in Hs. exact Hs.
+    + intros f d Heq Hin. inversion Heq; subst. apply In_known_after in Hin as [[]|Hin]. exact (Hnm Hin).
+    + reflexivity.
+  - rewrite forallb_app, Hd. reflexivity.
+Qed.
+
+(** The property for programs fed in interactive style: any cut of the declarations and of the
+    statements of main gives the memory (variables, pointer targets, output) of the evaluation in
+    one piece. *)
+Theorem any_cut fuel p c1 c2 :
+  prog_ok p = true -> inits_indirect (decls p) = true ->
+  ymem (fst (y_run fuel y0 (pieces p c1 c2))) = ymem (fst (y_run fuel y0 [whole p])).
+Proof.
+  intros Hok Hi.
+  assert (Hpieces : obs_y (y_run fuel y0 (pieces p c1 c2)) = obs_g (g_run fuel g0 (pieces p c1 c2))).
+  { apply y_session_is_g.
+    - apply pieces_homogeneous, Hok.
+    - rewrite pieces_concat. unfold prog_ok in Hok. apply andb_true_iff in Hok as [Hok _]. apply andb_true_iff in Hok as [_ Hok]. exact Hok.
+    - rewrite pieces_concat, inits_indirect_app, Hi. apply inits_indirect_stmts.
+    - apply main_last_nomain, pieces_nomain, Hok. }
+  destruct (whole_ok p Hok) as [Hwo Hwd].
+  assert (Hwhole : obs_y (y_run fuel y0 [whole p]) = obs_g (g_run fuel g0 [whole p])).
+  { apply y_session_is_g.
+    - simpl. unfold homogeneous. rewrite Hwd. reflexivity.
+    - simpl. rewrite app_nil_r. exact Hwo.
+    - simpl. rewrite app_nil_r. unfold whole. rewrite inits_indirect_app, Hi. reflexivity.
+    - reflexivity. }
+  pose proof (f_equal fst Hpieces) as Hp1. pose proof (f_equal fst Hwhole) as Hw1.
+  unfold obs_y, obs_g in Hp1, Hw1. cbn [fst] in Hp1, Hw1.
+  rewrite Hp1, Hw1. rewrite (g_run_nomain fuel _ g0 None (pieces_nomain p c1 c2 Hok)).
+  rewrite pieces_concat. symmetry. apply g_whole, Hok.
+Qed.
